@@ -82,6 +82,9 @@ func Alphabet(pc ref.PConfig) []ref.Cmd {
 	chunk("BDAT accept-c2 LAST", "accept-c2\r\n.\r\n", true)
 	chunk("BDAT reject-c3 LAST", "reject-c3\r\nx", true)
 	chunk("BDAT rejectne-c6 LAST", "rejectne-c6\r\nx", true)
+	chunk("BDAT panic-c7 LAST (backend panics)", "panic-c7\r\nx", true)
+	chunk("BDAT earlypanic-c8 (backend panics inside the chunk)", "earlypanic-c8\r\nrest of chunk", false)
+	chunk("BDAT earlypanic-c9 LAST (backend panics inside the chunk)", "earlypanic-c9\r\nrest", true)
 	chunk("BDAT 0 LAST", "", true)
 	chunk("BDAT early-c4 (fails inside the chunk)", "early-c4\r\nrest of chunk", false)
 	chunk("BDAT early-c5 LAST (fails inside the chunk)", "early-c5\r\nrest", true)
